@@ -114,6 +114,8 @@ class StdLib:
         if canon.startswith("std::shared_ptr<") or canon.startswith("std::__shared_ptr<"):
             t = parse_type(targs(canon)[0])
             return [("p", Ty("ptr", to=t)), ("c", Ty("ptr", to=Ty("rec", name="verif_ctrl")))]
+        if canon.startswith("std::unique_ptr<") and self.tr.opts.get("unique_ptr_delete") is not None:
+            return [("p", Ty("ptr", to=parse_type(targs(canon)[0])))]
         if re.match(r"std::(__cxx11::)?basic_stringstream<char", canon) and self.tr.opts.get("bounded_str"):
             strc = "std::basic_string<char>"
             return [("buf", Ty("rec", name=strc)), ("pos", parse_type("unsigned long")), ("fail", parse_type("bool"))]
@@ -347,6 +349,28 @@ static inline void %(s)s_resize(%(s)s *v, unsigned long n) { if (n <= v->n) { v-
         tr.assume("std::vector (value-tracking model)", "{b, n, cap}: one heap block of cap elements, n <= cap; size/at/back/operator[]/push_back without reallocation/shrinking resize/clear are CODE over that block; reallocation (push_back at n == cap, growing resize) is an ASSUMED contract: fresh block, larger capacity, elements preserved at the ghost indices verif_gi/gj/hi/hj (a sound instance of 'all elements preserved'; new elements of a growing resize are zero there); max_size modelled as 2^40: push_back on a vector of 2^40 elements is outside the model (callers' contracts require fewer) (lib/stdlib.py)")
         return s
 
+    def ensure_up(self, canon):
+        """std::unique_ptr<T>: {p} with exact single ownership; destroying the owned object goes through the unit's delete stub
+        (opts unique_ptr_delete[canon] = C function name) so that destructions can be counted / checked"""
+        tr = self.tr
+        s = tr.need_record(canon)
+        if s in self.text:
+            return s
+        T = tr.ctype(parse_type(targs(canon)[0]))
+        D = tr.opts["unique_ptr_delete"].get(canon)
+        if D is None:
+            raise ExtractionBreak("std::unique_ptr<%s>: no delete stub named by the unit" % T)
+        self.text[s] = """
+static inline void %(s)s_null(%(s)s *s) { s->p = 0; }
+static inline void %(s)s_raw(%(s)s *s, %(T)s *p) { s->p = p; }
+static inline void %(s)s_move(%(s)s *s, %(s)s *o) { s->p = o->p; o->p = 0; }
+static inline void %(s)s_dtor(%(s)s *s) { if (s->p) %(D)s(s->p); s->p = 0; }
+static inline void %(s)s_assign_move(%(s)s *s, %(s)s *o) { %(T)s *old = s->p; s->p = o->p; o->p = 0; if (old) %(D)s(old); }
+""" % dict(s=s, T=T, D=D)
+        self.model_deps = getattr(self, "model_deps", {})
+        tr.assume("std::unique_ptr", "reference model: {pointer} with exact single ownership; the owned object is destroyed through the unit's delete stub")
+        return s
+
     def ensure_vec(self, canon):
         tr = self.tr
         if self.is_string(canon) and tr.opts.get("bounded_str"):
@@ -423,6 +447,16 @@ static inline void %(s)s_dtor(%(s)s *v) { if (v->b) free(v->b); v->b = 0; v->n =
         if self.is_opaque(canon):
             tr.rule("opaque std constructor")
             return [X("expr", X("cast", "void", tr.discard(a))) for a in args if a.get("kind") != "CXXDefaultArgExpr"]
+        if canon.startswith("std::unique_ptr<") and tr.opts.get("unique_ptr_delete") is not None:
+            s = self.ensure_up(canon)
+            tr.rule("std::unique_ptr model")
+            real = [a for a in args if a.get("kind") != "CXXDefaultArgExpr"]
+            if not real or "nullptr_t" in (ps[0] if ps else ""):
+                return [X("expr", X("call", s + "_null", [ptr]))]
+            pt = parse_type(ps[0])
+            if pt.kind == "ref" and pt.to.kind == "rec" and pt.to.name.startswith("std::unique_ptr<"):
+                return [X("expr", X("call", s + "_move", [ptr, tr.bind_ref(real[0])]))]
+            return [X("expr", X("call", s + "_raw", [ptr, X("cast", tr.ctype(Ty("ptr", to=parse_type(targs(canon)[0]))), tr.rv(real[0]))]))]
         if canon.startswith("std::shared_ptr<"):
             s = self.ensure_sp(canon)
             def call(fn, *a):
@@ -597,6 +631,8 @@ static inline void verif_lock_guard_dtor(std_lock_guard_std_mutex *g) { g->m->g_
         if ty.kind == "rec":
             if ty.name.startswith("std::shared_ptr<"):
                 return self.ensure_sp(ty.name) + "_dtor"
+            if ty.name.startswith("std::unique_ptr<") and tr.opts.get("unique_ptr_delete") is not None:
+                return self.ensure_up(ty.name) + "_dtor"
             if self.is_veclike(ty.name):
                 return self.ensure_vec(ty.name) + "_dtor"
             if ty.name.startswith("std::lock_guard<"):
@@ -651,6 +687,33 @@ static inline void verif_lock_guard_dtor(std_lock_guard_std_mutex *g) { g->m->g_
             o = tr.lv(self.strip_base_casts(obj[0]))
             tr.rule("std::stringstream model")
             return X("un", "!", X("mem", o, "fail", ty=parse_type("bool")), ty=parse_type("bool"))
+        if q.startswith("std::unique_ptr<") and obj is not None and tr.opts.get("unique_ptr_delete") is not None:
+            objn = self.strip_base_casts(obj[0])
+            oty = tr.ety(objn)
+            o = deref(tr.rv(objn)) if obj[1] else tr.lv(objn)
+            if obj[1]:
+                oty = oty.to
+            canon = oty.name
+            s = self.ensure_up(canon)
+            T = parse_type(targs(canon)[0])
+            m = q.split("::")[-1]
+            p = X("mem", o, "p", ty=Ty("ptr", to=T))
+            tr.rule("std::unique_ptr model")
+            if m in ("operator->", "get"):
+                return p
+            if m == "operator*":
+                return deref(p)
+            if m == "operator bool":
+                return X("bin", "!=", p, X("lit", "((void*)0)"), ty=parse_type("bool"))
+            if m == "operator=":
+                pt = parse_type(ps[0])
+                if pt.kind == "ref" and pt.rv:
+                    return deref(X("comma", X("call", s + "_assign_move", [addr(o), tr.bind_ref(args[0])]), addr(o), ty=Ty("ptr", to=oty)))
+                if "nullptr_t" in ps[0]:
+                    return deref(X("comma", X("call", s + "_dtor", [addr(o)]), addr(o), ty=Ty("ptr", to=oty)))
+            if m == "reset" and not args:
+                return X("call", s + "_dtor", [addr(o)])
+            raise ExtractionBreak("std::unique_ptr member '%s' has no model" % m)
         # ---- shared_ptr members
         if re.match(r"std::(__shared_ptr_access|__shared_ptr|shared_ptr)<", q) and obj is not None:
             objn = self.strip_base_casts(obj[0])
